@@ -236,6 +236,13 @@ func c05Inputs(c *core.Ctx) [][]byte {
 		[]byte(`<!DOCTYPE html><html><head><meta charset="iso-8859-2"></head><body>x</body></html>`),
 		[]byte(`<?xml version="1.0" encoding="ISO-8859-1"?><rss version="2.0"></rss>`),
 		[]byte("#!/usr/bin/env python\nprint('x')\n"),
+		// cut documents: whether the detectors are told "whole file" or "header" matters
+		[]byte(`{"a":[1,2`),
+		[]byte(`{"type":"Feature","geometry":{"type":"Poi`),
+		[]byte("a,b\n1,2\n3"),
+		[]byte("a\tb\n1\t2\n3"),
+		[]byte("{\"a\":1}\n{\"b\":2}\n{\"c"),
+		[]byte("a,b\n1,2\n"),
 	}
 	for _, w := range corpus(c) {
 		switch w.Name {
